@@ -8,11 +8,12 @@ InvalidPassword (G3); accepted V values and CFM -> cipher table (TABLE).
 """
 import re
 import facts as F
-from cfg import CFG
+from cfg import CFG, ccp_reachable
 from flow import Flow, call_sites, arg_local, last_seg
 from bounds import slice_len_upper
 from sym import PathSym, enum_paths, prefix_to, feasible, walk, show
 from tables import enum_switches, exclusive_regions
+from inline import inlined
 
 ERR = "error::PdfError"
 CIPHER_CALLS = ("new_from_slices", "decrypt_padded_mut", "encrypt_padded_mut")
@@ -83,6 +84,8 @@ def rule_salts(ctx, f):
         ctx.lost("C06-SIB-salts", "crypt::Decoder::from_password")
         return
     from flow import Flow
+    # the slicing of /U and /O may sit in a private helper (`split_hash_and_salts(u)?`); the calls the rule speaks about stay calls
+    b = inlined(f, b, only=lambda h: last_seg(h["id"]) not in ("revision_6_kdf", "chain_update", "update"))
     fl = Flow(b)
     # locals holding &x[32..40] / &x[40..48]
     salt = {}       # local -> (start, end)
@@ -221,8 +224,10 @@ def rule_exempt(ctx, f):
     ciphers = [bi for bi, t in F.calls(b) if is_cipher_call(F.callee_name(t), t)]
     ctx.floor("C06-G2", len(ciphers), 5, "cipher uses in Decoder::decrypt")
     tests = {}
+    n_of = {}
     for bi, t in F.calls(b):
         n = F.callee_name(t)
+        n_of[bi] = n
         if last_seg(n) in ("eq", "ne") and "Option<object::PlainRef>" in t.get("callee_full", "") + t.get("resolved_full", ""):
             flds = set()
             for k in range(len(t["args"])):
@@ -250,6 +255,11 @@ def rule_exempt(ctx, f):
             if true_t is None:
                 true_t = sw["otherwise"]
             reg = cfg.reachable_from(true_t)
+            ok = not (reg & set(ciphers)) and any(b["blocks"][r]["term"]["k"] == "return" for r in reg)
+        if not ok and t.get("target") is not None and t.get("dest") and len(t["dest"]) == 1:
+            # the outcome may be kept in a variable and tested later (`let in_encrypt_dict = ..; if in_encrypt_dict || .. { return Ok(data) }`):
+            # with the test assumed true, constant propagation reaches a return and no cipher
+            reg = ccp_reachable(b, t["target"], init={t["dest"][0]: 0 if last_seg(n_of[bi]) == "ne" else 1})
             ok = not (reg & set(ciphers)) and any(b["blocks"][r]["term"]["k"] == "return" for r in reg)
         # `eq` dominates all ciphers — except metadata test, which is only evaluated when encrypt_metadata is false
         if nm == "metadata_indirect_object":
@@ -401,13 +411,14 @@ def rule_identity(ctx, f):
         if b is None:
             ctx.lost("C06-PROV", nm)
             continue
+        b = inlined(f, b)        # the `<nr> <gen> obj` header may be read by a private helper
         fl = Flow(b)
         for i, j, s in F.stmts(b):
             if s[0] == "assign" and s[2][0] == "aggregate" and s[2][1].get("adt") == "parser::Context":
                 names = s[2][1]["fields"]
                 idop = s[2][2][names.index("id")]
                 l = F.op_local(idop)
-                ats = fl.origins(l, passthrough=()) if l is not None else []
+                ats = fl.origins(l, passthrough=("branch", "from_residual")) if l is not None else []
                 # exactly one PlainRef aggregate flows (by copies only) into Context.id; its id / gen
                 # operands come from the first / second Lexer::next() of the body
                 aggs = [a for a in ats if a[0] == "agg" and a[1].get("adt") == "object::PlainRef"]
@@ -660,7 +671,9 @@ def rule_pw_pad(ctx, f):
     hs = [b for k, b in f.bodies.items() if "key_derivation_" in k.split("::")[-1] and b["kind"] != "Closure"]
     if not ctx.floor("C06-SIB-pad", len(hs), 2, "password key derivations (user, owner)"):
         return
-    for b in hs:
+    from inline import inlined
+    for b0 in hs:
+        b = inlined(f, b0)          # a helper shared by both derivations (`consume_padded_password`) is read in place
         fl = Flow(b)
         cut = pad = False
         for bi, t in F.calls(b):
